@@ -10,7 +10,7 @@ verus! {
 //@ include prelude/fvm_runtime_assumed.rs
 
 //@ fn runtime/src/runtime/fvm.rs FvmRuntime::assert_not_validated
-    ensures r.is_ok() <==> !self.caller_validated.v, r.is_err() ==> r->Err_0.code == 24,
+    ensures r.is_ok() <==> !self.caller_validated.v,
 //@ end
 //@ fn runtime/src/runtime/fvm.rs FvmRuntime::validate_immediate_caller_accept_any selfmut inherent impl="impl<B> FvmRuntime<B>"
     ensures
@@ -26,7 +26,6 @@ verus! {
         r.is_ok() <==> (!old(self).caller_validated.v && addresses@.contains(fvm_caller_spec())),
         r.is_ok() ==> final(self).caller_validated.v,
         r.is_err() ==> final(self).caller_validated.v == old(self).caller_validated.v,
-        r.is_err() && !old(self).caller_validated.v ==> r->Err_0.code == 18,
         final(self).in_transaction == old(self).in_transaction,
 //@ end
 //@ fn runtime/src/runtime/fvm.rs FvmRuntime::validate_immediate_caller_type selfmut inherent impl="impl<B> FvmRuntime<B>" r13 sigsub0="< 'a , I >=>" sigsub1="types : I=>types : &Vec<Type>" sigsub2="where I : IntoIterator < Item = & 'a Type >=>" sub0="self . message () . caller ()=>fvm_msg_caller()" r23
@@ -41,11 +40,11 @@ verus! {
 //@ fn runtime/src/runtime/fvm.rs FvmRuntime::delete_actor inherent impl="impl<B> FvmRuntime<B>" sub0="fvm :: sself :: self_destruct (false)=>fvm_sself_self_destruct(false)"
     ensures
         // state-changing syscalls are refused while a state transaction is open
-        self.in_transaction.v ==> r.is_err() && r->Err_0.code == 24,
+        self.in_transaction.v ==> r.is_err(),
 //@ end
 //@ fn runtime/src/runtime/fvm.rs FvmRuntime::create_actor inherent impl="impl<B> FvmRuntime<B>" sub0="fvm :: actor :: create_actor (actor_id , & code_id , predictable_address)=>fvm_actor_create_actor(actor_id, &code_id, predictable_address)"
     ensures
-        self.in_transaction.v ==> r.is_err() && r->Err_0.code == 24,
+        self.in_transaction.v ==> r.is_err(),
 //@ end
 //@ fn runtime/src/runtime/fvm.rs FvmRuntime::send inherent impl="impl<B> FvmRuntime<B>" sub0="SendError (ErrorNumber :: IllegalOperation)=>vx_send_error_illegal_operation()" sub1="fvm :: send :: send (to , method , params , value , gas_limit , flags) . map_err (SendError)=>fvm_send_send(to, method, params, value, gas_limit, flags)"
     ensures
